@@ -17,7 +17,7 @@ import z3
 from .engine import Engine, Oblig
 from .pure import PureEval, truthy, to_int, fresh
 from .repoidx import Repo, func_hash, repo_root
-from .solve import discharge, to_smt2, solve_one, check_sat
+from .solve import discharge, to_smt2, solve_one, solve_all, check_sat
 from .spec import Spec, Lemma, Custom
 from .vals import Unsupported, IntV, BoolV, SeqV, UnionV, NONE, TupV
 
@@ -238,6 +238,86 @@ def load_known():
         return json.load(f).get('findings', [])
 
 
+class ObRec(object):
+    """picklable summary of one obligation (queries as SMT-LIB2 text)"""
+
+    def __init__(self, full, name, kind, line, item_index):
+        self.full, self.name, self.kind, self.line, self.item_index = full, name, kind, line, item_index
+        self.queries = []        # (smt2 text | None for trivially true, smt2 text outside known classes | None)
+        self.status = None
+        self.results = []
+
+
+def gen_item(args):
+    """phase 1 (one worker process per contract item): symbolic execution -> obligations as text"""
+    prop, idx, tier, seed, known = args
+    sys.path.insert(0, VERIF)
+    mod = importlib.import_module('contracts.%s' % prop)
+    repo = Repo()
+    it = mod.contracts(repo)[idx]
+    out = dict(index=idx, name=it.name, obs=[], undecided=[], function=None, crosscheck=None, error=None)
+    try:
+        if isinstance(it, Spec):
+            eng = run_spec(repo, it)
+            probs, n_normal = vacuity(eng)
+            for p in probs:
+                out['undecided'].append(('%s/%s' % (prop, it.name), 'vacuity: ' + p))
+            eng._optnames = set()
+            for v in eng.init_vals.values():
+                if isinstance(v, UnionV):
+                    for g, a in v.alts:
+                        eng._optnames.add(str(g))
+            out['function'] = dict(file=it.target[0], function=it.target[1], line_from=eng.fdef.lineno,
+                                   line_to=eng.fdef.end_lineno, source_sha=func_hash(eng.mod, eng.fdef),
+                                   contract=it.name, paths=len(eng.paths), forks=eng.nforks,
+                                   dropped=sorted(eng.dropped), inlined=sorted(eng.inlined),
+                                   callee_contracts=sorted(eng.called), fragment=bool(it.fragment), note=it.note)
+            if not eng.order:
+                out['undecided'].append(('%s/%s' % (prop, it.name), 'vacuity: zero obligations'))
+            for nm in eng.order:
+                ob = eng.obligs[nm]
+                if ob is None:
+                    continue
+                full = '%s/%s/%s' % (prop, it.name, nm)
+                rec = ObRec(full, nm, ob.kind, ob.line, idx)
+                ks = [k for k in known if k.get('obligation') == full and k.get('witness')]
+                excl = []
+                if ks:
+                    for k in ks:
+                        pe = PureEval(eng.contract_ns(eng.entry, None, init=True), defs=it.defs, funcs=eng.contract_funcs(eng.entry))
+                        excl.append(z3.Not(pe.boolean(k['witness'])))
+                        excl.extend(pe.facts)
+                for hyps, claim, meta in ob.queries:
+                    if meta.get('trivial'):
+                        rec.queries.append((None, None))
+                    else:
+                        rec.queries.append((to_smt2(hyps, claim), to_smt2(list(hyps) + excl, claim) if ks else None))
+                out['obs'].append(rec)
+            cc = crosscheck(eng, it, seed, 60 if tier == 'quick' else 400)
+            out['crosscheck'] = cc
+        elif isinstance(it, Custom):
+            for suffix, hyps, claim in it.build(repo):
+                nm = '%s[%s]' % (it.name, suffix) if suffix else it.name
+                rec = ObRec('%s/%s' % (prop, nm), nm, 'lemma', None, idx)
+                rec.queries.append((to_smt2(hyps, claim), None))
+                if check_sat(hyps, 5000) == 'unsat':
+                    out['undecided'].append((rec.full, 'vacuity: lemma hypotheses are contradictory'))
+                out['obs'].append(rec)
+        elif isinstance(it, Lemma):
+            ob, hyps = lemma_oblig(it, funcs=getattr(mod, 'FUNCS', {}))
+            rec = ObRec('%s/%s' % (prop, it.name), it.name, 'lemma', None, idx)
+            h, c, _ = ob.queries[0]
+            rec.queries.append((to_smt2(h, c), None))
+            if check_sat(hyps, 5000) == 'unsat':
+                out['undecided'].append((rec.full, 'vacuity: lemma hypotheses are contradictory'))
+            out['obs'].append(rec)
+    except Unsupported as e:
+        out['undecided'].append(('%s/%s' % (prop, it.name), 'unsupported: %s' % e))
+    except CheckerDefect as e:
+        out['error'] = 'CHECKER-DEFECT %s' % e
+    return out
+
+
 def check_property(prop, tier='quick', seed=0, only=None):
     t0 = time.time()
     res = Result(prop)
@@ -246,96 +326,82 @@ def check_property(prop, tier='quick', seed=0, only=None):
     repo = Repo()
     known = [k for k in load_known() if k.get('property') == prop and k.get('status') == 'known']
     items = mod.contracts(repo) if hasattr(mod, 'contracts') else []
-    engines = []
-    all_obs = []
-    for it in items:
-        if only and only not in it.name:
-            continue
-        try:
-            if isinstance(it, Spec):
-                eng = run_spec(repo, it)
-                probs, n_normal = vacuity(eng)
-                for p in probs:
-                    res.undecided.append(('%s/%s' % (prop, it.name), 'vacuity: ' + p))
-                eng._optnames = set()
-                for v in eng.init_vals.values():
-                    if isinstance(v, UnionV):
-                        for g, a in v.alts:
-                            eng._optnames.add(str(g))
-                engines.append(eng)
-                fn = dict(file=it.target[0], function=it.target[1], line_from=eng.fdef.lineno,
-                          line_to=eng.fdef.end_lineno, source_sha=func_hash(eng.mod, eng.fdef),
-                          contract=it.name, paths=len(eng.paths), forks=eng.nforks,
-                          dropped=sorted(eng.dropped), inlined=sorted(eng.inlined),
-                          callee_contracts=sorted(eng.called), fragment=bool(it.fragment), note=it.note)
-                res.functions.append(fn)
-                for nm in eng.order:
-                    ob = eng.obligs[nm]
-                    if ob is None:
-                        continue
-                    full = '%s/%s/%s' % (prop, it.name, nm)
-                    all_obs.append((full, ob, it, eng))
-                if not eng.order:
-                    res.undecided.append(('%s/%s' % (prop, it.name), 'vacuity: zero obligations'))
-                cc = crosscheck(eng, it, seed, 60 if tier == 'quick' else 400)
-                if cc is not None:
-                    res.crosscheck[it.name] = cc
-            elif isinstance(it, Custom):
-                for suffix, hyps, claim in it.build(repo):
-                    ob = Oblig('%s[%s]' % (it.name, suffix) if suffix else it.name, 'lemma')
-                    ob.add(hyps, claim, dict(lemma=True))
-                    if check_sat(hyps, 5000) == 'unsat':
-                        res.undecided.append(('%s/%s' % (prop, ob.name), 'vacuity: lemma hypotheses are contradictory'))
-                    all_obs.append(('%s/%s' % (prop, ob.name), ob, it, None))
-            elif isinstance(it, Lemma):
-                ob, hyps = lemma_oblig(it, funcs=getattr(mod, 'FUNCS', {}))
-                if check_sat(hyps, 5000) == 'unsat':
-                    res.undecided.append(('%s/%s' % (prop, it.name), 'vacuity: lemma hypotheses are contradictory'))
-                all_obs.append(('%s/%s' % (prop, it.name), ob, it, None))
-        except Unsupported as e:
-            res.undecided.append(('%s/%s' % (prop, it.name), 'unsupported: %s' % e))
-    discharge([ob for _, ob, _, _ in all_obs])
-    for full, ob, it, eng in all_obs:
-        res.obligs.append((full, ob, it, eng))
-        res.by_kind[ob.kind] = res.by_kind.get(ob.kind, 0) + 1
-        for r in ob.results:
+    todo = [i for i, it in enumerate(items) if not only or only in it.name]
+    args = [(prop, i, tier, seed, known) for i in todo]
+    if len(args) > 1:
+        import multiprocessing
+        ctx = multiprocessing.get_context('fork')
+        with ctx.Pool(min(len(args), int(os.environ.get('PYVC_JOBS', str(min(16, os.cpu_count() or 4)))))) as pl:
+            outs = pl.map(gen_item, args, chunksize=1)
+    else:
+        outs = [gen_item(a) for a in args]
+    res.gen_wall = time.time() - t0
+    jobs = []
+    recs = []
+    for out in outs:
+        if out['error']:
+            raise CheckerDefect(out['error'])
+        res.undecided.extend(out['undecided'])
+        if out['function']:
+            res.functions.append(out['function'])
+        if out['crosscheck'] is not None:
+            res.crosscheck[out['name']] = out['crosscheck']
+        for rec in out['obs']:
+            recs.append(rec)
+            for qi, (q, qx) in enumerate(rec.queries):
+                if q is not None:
+                    jobs.append(((len(recs) - 1, qi, 'main'), q, True))
+    results = solve_all(jobs)
+    by = {}
+    for r in results:
+        by.setdefault(r['key'][0], []).append(r)
+    for ri, rec in enumerate(recs):
+        rec.results = by.get(ri, [])
+        if not rec.queries:
+            rec.status = 'vacuous'
+        elif any(r['status'] == 'sat' for r in rec.results):
+            rec.status = 'refuted'
+        elif any(r['status'] == 'unknown' for r in rec.results):
+            rec.status = 'undecided'
+        else:
+            rec.status = 'discharged'
+    for rec in recs:
+        it = items[rec.item_index]
+        res.obligs.append((rec.full, rec, it, None))
+        res.by_kind[rec.kind] = res.by_kind.get(rec.kind, 0) + 1
+        for r in rec.results:
             res.solver_s += r['seconds']
             res.by_backend[r['backend']] = res.by_backend.get(r['backend'], 0) + 1
-        if ob.status == 'undecided':
-            why = '; '.join(sorted(set(r['reason'] for r in ob.results if r['status'] == 'unknown')))
+        if rec.status == 'undecided':
+            why = '; '.join(sorted(set(r['reason'] for r in rec.results if r['status'] == 'unknown')))
             # an obligation the solvers cannot decide is never a violation by itself; but if the
             # contract's replay search finds an input on which the real code breaks the contract,
             # the violation is real and is reported against this obligation
             rep = None
             replay = getattr(it, 'replay', None)
-            if replay is not None and full not in [k.get('obligation') for k in known]:
+            if replay is not None and rec.full not in [k.get('obligation') for k in known]:
                 try:
-                    rep = replay(None, ob.name)
-                except Exception as e:
+                    rep = replay(None, rec.name)
+                except Exception:
                     rep = None
             if rep and rep.get('confirmed'):
-                res.violations.append(dict(kind='obligation', obligation=full, line=ob.line, model=None, replay=rep,
+                res.violations.append(dict(kind='obligation', obligation=rec.full, line=rec.line, model=None, replay=rep,
                                            solver=[dict(reason=why)]))
-            elif lost_by_code_change(res, full, it, eng):
-                # the obligation was discharged on the recorded baseline and the function text changed
-                # since: the change broke the proof.  Reported as a violation without a failing input.
-                res.violations.append(dict(kind='obligation', obligation=full, line=ob.line, model=None,
+            elif lost_by_code_change(res, rec.full, it, None):
+                res.violations.append(dict(kind='obligation', obligation=rec.full, line=rec.line, model=None,
                                            replay=dict(confirmed=False, note='obligation was discharged on the baseline tree; the '
                                                        'function under contract has changed and the solvers no longer discharge it',
                                                        solver_output=why),
                                            solver=[dict(reason=why)]))
             else:
-                res.undecided.append((full, 'solver: ' + why))
-        elif ob.status == 'vacuous':
-            res.undecided.append((full, 'vacuity: no path reaches this clause'))
-        elif ob.status == 'refuted':
-            handle_refuted(res, full, ob, it, eng, known)
+                res.undecided.append((rec.full, 'solver: ' + why))
+        elif rec.status == 'vacuous':
+            res.undecided.append((rec.full, 'vacuity: no path reaches this clause'))
+        elif rec.status == 'refuted':
+            handle_refuted(res, rec, it, known)
     # bounded tier
     if hasattr(mod, 'bounded') and not only:
-        try:
-            b = mod.bounded(tier, seed)
-        except Exception:
-            raise
+        b = mod.bounded(tier, seed)
         res.bounded = b
         nb = 0
         for v in b.get('violations', []):
@@ -371,57 +437,39 @@ def match_known_bounded(v, known):
     return None
 
 
-def handle_refuted(res, full, ob, it, eng, known):
-    """a refuted obligation: known finding (then re-ask the solver for a counter-model outside the
-    known witness class) or violation; replay the counter-model on the real code"""
-    sat = [r for r in ob.results if r['status'] == 'sat']
+def handle_refuted(res, rec, it, known):
+    """a refuted obligation: known finding (then ask the solver for a counter-model outside the
+    known witness class) or violation; the counter-model is replayed on the real code"""
+    full = rec.full
+    sat = [r for r in rec.results if r['status'] == 'sat']
     ks = [k for k in known if k.get('obligation') == full]
-    if ks and eng is not None:
-        # is there a refutation outside every known witness class?
-        outside = []
-        for (hyps, claim, meta) in ob.queries:
-            if meta.get('trivial'):
-                continue
-            excl = []
-            for k in ks:
-                pe = PureEval(eng.contract_ns(eng.entry, None, init=True), defs=it.defs, funcs=eng.contract_funcs(eng.entry))
-                excl.append(z3.Not(pe.boolean(k['witness'])))
-                excl.extend(pe.facts)
-            r = solve_one((None, to_smt2(list(hyps) + excl, claim), True))
-            if r['status'] != 'unsat':
-                outside.append(r)
+    if ks:
+        jobs = [((0, qi, 'excl'), qx, True) for qi, (q, qx) in enumerate(rec.queries) if qx is not None]
+        outside = [r for r in solve_all(jobs) if r['status'] != 'unsat'] if jobs else []
+        for k in ks:
+            res.known.append((k, dict(obligation=full, model=sat[0].get('model'))))
         if not outside:
-            for k in ks:
-                res.known.append((k, dict(obligation=full, model=sat[0].get('model'))))
             return
         new_sat = [r for r in outside if r['status'] == 'sat']
         if not new_sat:
             res.undecided.append((full, 'solver: undecided outside the known-finding witness class'))
-            for k in ks:
-                res.known.append((k, dict(obligation=full, model=sat[0].get('model'))))
             return
         sat = new_sat
-        for k in ks:
-            res.known.append((k, dict(obligation=full, model=None)))
-    elif ks:
-        for k in ks:
-            res.known.append((k, dict(obligation=full, model=sat[0].get('model'))))
-        return
     model = sat[0].get('model')
     rep = None
     replay = getattr(it, 'replay', None)
-    if replay is not None and model is not None:
+    if replay is not None:
         for r in sat[:8]:
             if r.get('model') is None:
                 continue
             try:
-                rep = replay(r['model'], ob.name)
+                rep = replay(r['model'], rec.name)
             except Exception as e:
                 rep = dict(confirmed=False, error='replay crashed: %s' % e, trace=traceback.format_exc())
             if rep and rep.get('confirmed'):
                 model = r['model']
                 break
-    res.violations.append(dict(kind='obligation', obligation=full, line=ob.line, model=model, replay=rep,
+    res.violations.append(dict(kind='obligation', obligation=full, line=rec.line, model=model, replay=rep,
                                solver=[dict(backend=r['backend'], seconds=r['seconds']) for r in sat[:3]]))
 
 
@@ -462,9 +510,8 @@ def finish(res, mod, tier, seed, level):
     samples = []
     for full, ob, it, eng in res.obligs[:400]:
         if len(samples) < 12 and ob.queries:
-            hy, cl, meta = ob.queries[0]
             samples.append(dict(obligation=full, kind=ob.kind, status=ob.status, queries=len(ob.queries),
-                                smt2_bytes=len(to_smt2(hy, cl)) if not meta.get('trivial') else 0))
+                                smt2_bytes=len(ob.queries[0][0] or '')))
     cov = dict(
         obligations=n_ob, discharged=n_dis, queries=n_q,
         checker_cmd='./check %s --tier %s  (pyvc: AST of %s -> VCs -> z3 %s, cvc5 on unknown)' % (
